@@ -1173,4 +1173,152 @@ class NativeRed(NativeCheck):
         return (inp['strand'], len(inp['txs']), inp['gcov'], tuple(inp['th']), len(inp['subs']))
 
 
-NATIVE = [NativeVep(), NativeRed()]
+class NativeTableParsers(NativeCheck):
+    name = 'table_parsers'
+    props = ('C14',)
+    functions = ('moPepGen/parser/VEPParser.py:parse', 'moPepGen/parser/REDItoolsParser.py:parse')
+    bounded_for = ('the text parsers in front of the record converters: every data row of a VEP / REDItools table becomes one record carrying the columns of that '
+                   'row - also rows that share id, location and transcript and differ in the allele, and REDItools rows that list a transcript several times '
+                   '(ENST-transcript, ENST-exon, ...), whose entries all stay, in order')
+    bound = 'two hand-made tables (VEP: 5 rows incl. a tri-allelic site; REDItools: 3 rows incl. repeated transcripts) through the real parse functions'
+    quick_budget_s = 10
+    thorough_budget_s = 10
+
+    def cases(self, rng, tier):
+        yield dict(table='vep')
+        yield dict(table='reditools')
+
+    def check(self, inp):
+        import tempfile, shutil, os
+        d = tempfile.mkdtemp(prefix='verif_c14t_')
+        try:
+            if inp['table'] == 'vep':
+                from moPepGen.parser import VEPParser
+                rows = [['rs1', 'chr22:100', 'A', 'ENSG1', 'ENST1', 'Transcript', 'missense_variant', '10', '10', '4', 'K/N', 'aaG/aaA', '-'],
+                        ['rs1', 'chr22:100', 'T', 'ENSG1', 'ENST1', 'Transcript', 'missense_variant', '10', '10', '4', 'K/I', 'aaG/aaT', '-'],
+                        ['rs1', 'chr22:100', 'C', 'ENSG1', 'ENST1', 'Transcript', 'synonymous_variant,splice_region_variant', '10', '10', '4', 'K', 'aaG/aaC', 'rs99'],
+                        ['rs1', 'chr22:100', 'A', 'ENSG1', 'ENST2', 'Transcript', 'missense_variant', '10', '10', '4', 'K/N', 'aaG/aaA', '-'],
+                        ['rs2', 'chr22:200-201', '-', 'ENSG1', 'ENST1', 'Transcript', 'frameshift_variant', '20-21', '20-21', '7', 'KL/X', 'aaGCtt/aatt', '-']]
+                path = os.path.join(d, 'vep.tsv')
+                with open(path, 'w') as fh:
+                    fh.write('## a comment\n#Uploaded_variation\tLocation\tAllele\n' + ''.join('\t'.join(r) + '\n' for r in rows))
+                with open(path) as fh:
+                    got = [(r.uploaded_variation, r.location, r.allele, r.gene, r.feature, tuple(r.consequences)) for r in VEPParser.parse(fh)]
+                want = [(r[0], r[1], r[2], r[3], r[4], tuple(r[6].split(','))) for r in rows]
+            else:
+                from moPepGen.parser import REDItoolsParser
+                head = 'Region\tPosition\tReference\tStrand\tCoverage-q30\tMeanQ\tBaseCount[A,C,G,T]\tAllSubs\tFrequency\tgCoverage-q30\tgMeanQ\tgBaseCount[A,C,G,T]\tgAllSubs\tgFrequency\tfeat\tgid\ttid'
+                tids = ['ENST1-transcript,ENST1-exon,ENST1-CDS', 'ENST2-exon,ENST2-transcript&ENST3-transcript', 'ENST4-transcript']
+                rows = [['chr22', str(100 + i), 'A', '1', '30', '35.0', '[10, 0, 20, 0]', 'AG', '0.67', '-', '-', '-', '-', '-', 'x', 'ENSG1', t] for i, t in enumerate(tids)]
+                path = os.path.join(d, 'red.tsv')
+                with open(path, 'w') as fh:
+                    fh.write(head + '\n' + ''.join('\t'.join(r) + '\n' for r in rows))
+                got = [(r.region, r.position, [tuple(x) for x in r.transcript_id]) for r in REDItoolsParser.parse(path, transcript_id_column=16)]
+                import re
+                want = [('chr22', 100 + i, [tuple(x.split('-')) for x in re.split(r',|&|\$', t)]) for i, t in enumerate(tids)]
+                # the header line: the real parser skips the first line
+            if got != want:
+                return dict(call=f'{inp["table"]} table through parse()', observed=str(got)[:400], expected=str(want)[:400], signature='row-lost-or-changed-by-the-table-parser')
+        finally:
+            shutil.rmtree(d, ignore_errors=True)
+        return None
+
+    def nontrivial(self, inp):
+        return str(inp)
+
+
+class NativeVepCommand(NativeCheck):
+    name = 'vep_rows_through_the_command'
+    props = ('C14',)
+    functions = ('moPepGen/cli/parse_vep.py:parse_vep',)
+    bounded_for = ('parseVEP emits, for every row of the table, what the converter under contract gives for that row and its own transcript - no more, no less: '
+                   'the same event reported for sibling transcripts of different extent is converted (or rejected) per transcript, not once per gene')
+    bound = ('random tables (1-6 events x 2-3 transcripts of one gene with different starts/ends, both strands) through the real command with the '
+             'reference loader replaced by in-memory objects; the expected lines come from VEPRecord.convert_to_variant_record called per row')
+    quick_budget_s = 20
+    thorough_budget_s = 90
+
+    def cases(self, rng, tier):
+        # the accepting transcript first, the rejecting sibling second
+        yield dict(chrom='ACGTTGCAAGCTTGACCATGGTACCGATTGCAAGGCTTAACCGGTTAGCA', gene=(0, 50), strand=1,
+                   txs=[(0, 50), (20, 50)], events=[(10, 10, 'T'), (30, 30, 'A')], order='tx-major')
+        yield dict(chrom='ACGTTGCAAGCTTGACCATGGTACCGATTGCAAGGCTTAACCGGTTAGCA', gene=(0, 50), strand=-1,
+                   txs=[(0, 50), (0, 30)], events=[(40, 40, 'T'), (12, 13, '-')], order='event-major')
+        for _ in range(40 if tier != 'thorough' else 600):
+            L = rng.randint(40, 70)
+            chrom = ''.join(rng.choice('ACGT') for _ in range(L))
+            gs, ge = rng.randint(0, 4), L - rng.randint(0, 4)
+            txs = [(gs, ge)]
+            for _ in range(rng.randint(1, 2)):
+                ts = rng.choice([gs, rng.randint(gs, gs + 15)])
+                txs.append((ts, rng.choice([ge, rng.randint(ts + 10, ge)])))
+            rng.shuffle(txs)
+            events = []
+            for _ in range(rng.randint(1, 6)):
+                a = rng.randint(gs + 1, ge)
+                kind = rng.choice(['snv', 'del', 'ins'])
+                if kind == 'snv':
+                    events.append((a, a, rng.choice([c for c in 'ACGT' if c != chrom[a - 1]])))
+                elif kind == 'del':
+                    events.append((a, min(ge, a + rng.randint(0, 2)), '-'))
+                else:
+                    events.append((a, a + 1, ''.join(rng.choice('ACGT') for _ in range(rng.randint(1, 3)))))
+            yield dict(chrom=chrom, gene=(gs, ge), strand=rng.choice([1, -1]), txs=txs, events=events,
+                       order=rng.choice(['tx-major', 'event-major']))
+
+    def check(self, inp):
+        import argparse, tempfile, shutil, importlib
+        from pathlib import Path
+        from moPepGen.parser.VEPParser import VEPRecord
+        from moPepGen import seqvar
+        mod = importlib.import_module('moPepGen.cli.parse_vep')
+        common = importlib.import_module('moPepGen.cli.common')
+        chrom, (gs, ge), strand = inp['chrom'], inp['gene'], inp['strand']
+        names = [f'T{i + 1}' for i in range(len(inp['txs']))]
+        anno = realobj.anno_from([dict(id='G', start=gs, end=ge, strand=strand, transcripts=names)],
+                                 [dict(id=n, gene='G', strand=strand, exons=[t]) for n, t in zip(names, inp['txs'])])
+        genome = realobj.genome_from({'chr1': chrom})
+        pairs = [(e, n) for e in inp['events'] for n in names] if inp['order'] == 'event-major' else [(e, n) for n in names for e in inp['events']]
+        rows, want = [], []
+        for (a, b, allele), n in pairs:
+            loc = f'chr1:{a}' if a == b else f'chr1:{a}-{b}'
+            rows.append(['.', loc, allele, 'G', n, 'Transcript', 'x', '-', '-', '-', '-', '-', '-'])
+            rec = VEPRecord(uploaded_variation='.', location=loc, allele=allele, gene='G', feature=n, feature_type='Transcript', consequences=['x'],
+                            cdna_position='-', cds_position='-', protein_position='-', amino_acids=('', ''), codons=('', ''), existing_variation='-', extra={})
+            try:
+                v = rec.convert_to_variant_record(anno, genome)
+            except Exception:       # rejected for this transcript (the proved contract says when)
+                continue
+            want.append((n, int(v.location.start), int(v.location.end), str(v.ref), str(v.alt)))
+        d = Path(tempfile.mkdtemp(prefix='verif_c14c_'))
+        saved = common.load_references
+        try:
+            src = d / 'in.tsv'
+            src.write_text('## x\n#Uploaded_variation\tLocation\tAllele\n' + ''.join('\t'.join(r) + '\n' for r in rows))
+            top = argparse.ArgumentParser(prog='moPepGen')
+            sp = mod.add_subparser_parse_vep(top.add_subparsers(dest='command'))
+            args = top.parse_args([sp.prog.split()[-1], '-i', str(src), '-o', str(d / 'out.gvf'), '--source', 'gSNP', '-g', str(d / 'none.fa'),
+                                   '-a', str(d / 'none.gtf'), '--skip-failed', '--quiet'])
+            common.load_references = lambda *a, **k: (genome, anno, None, None)
+            args.func(args)
+            got = []
+            if (d / 'out.gvf').exists():
+                with open(d / 'out.gvf') as fh:
+                    for r in seqvar.io.parse(fh):
+                        got.append((r.attrs['TRANSCRIPT_ID'], int(r.location.start), int(r.location.end), str(r.ref), str(r.alt)))
+            if sorted(got) != sorted(want):
+                extra = sorted(set(got) - set(want))
+                lost = sorted(set(want) - set(got))
+                sig = 'record-emitted-for-a-transcript-whose-row-does-not-convert' if extra else ('row-lost-by-the-command' if lost else 'row-multiplicity-changed-by-the-command')
+                return dict(call=f'parseVEP on {len(rows)} rows ({inp["order"]}) of gene {gs}-{ge} strand {strand}, transcripts {inp["txs"]}, events {inp["events"]}',
+                            observed=f'extra {extra[:4]} lost {lost[:4]}', expected=f'{len(want)} records, one per convertible row', signature=sig)
+        finally:
+            common.load_references = saved
+            shutil.rmtree(d, ignore_errors=True)
+        return None
+
+    def nontrivial(self, inp):
+        return (inp['strand'], len(inp['txs']), len(inp['events']), inp['order'])
+
+
+NATIVE = [NativeVep(), NativeRed(), NativeTableParsers(), NativeVepCommand()]
